@@ -925,7 +925,7 @@ RunModule(stmts, cap, tr) ==
    call on the same evaluator).  A failing chunk leaves its partial effects; the next chunk starts
    with an empty call stack, and -- the properties' rule -- with every iteration lock released. *)
 NoErr == [kind |-> "", line |-> 0]
-RECURSIVE AssignedChunks(_, _), RunChunks(_, _, _, _, _)
+RECURSIVE AssignedChunks(_, _), RunChunks(_, _, _, _, _), RunChunksS(_, _, _, _, _, _)
 AssignedChunks(chunks, i) == IF i > Len(chunks) THEN {} ELSE AssignedS(chunks[i], 1) \cup AssignedChunks(chunks, i + 1)
 RunChunks(chunks, i, env, m, acc) ==
     IF i > Len(chunks) THEN [m |-> m, res |-> acc]
@@ -933,6 +933,19 @@ RunChunks(chunks, i, env, m, acc) ==
              r == ExecB(chunks[i], 1, env, m0)
              m1 == Ev(r.m, [e |-> "chunk_end", a |-> i, why |-> r.m.err.kind])
          IN RunChunks(chunks, i + 1, env, m1, Append(acc, [out |-> r.m.out, err |-> r.m.err]))
+(* `static[i]`: chunk i refers to a name bound nowhere, so it is rejected before any of its
+   statements runs: no effect at all, outcome kind "static" *)
+RunChunksS(chunks, static, i, env, m, acc) ==
+    IF i > Len(chunks) THEN [m |-> m, res |-> acc]
+    ELSE IF static[i] THEN RunChunksS(chunks, static, i + 1, env, m, Append(acc, [out |-> <<>>, err |-> [kind |-> "static", line |-> 0]]))
+    ELSE LET m0 == [m EXCEPT !.out = <<>>, !.err = NoErr, !.depth = 0]
+             r == ExecB(chunks[i], 1, env, m0)
+         IN RunChunksS(chunks, static, i + 1, env, r.m, Append(acc, [out |-> r.m.out, err |-> r.m.err]))
+RunSessionS(chunks, static, cap) ==
+    LET live == SelectSeq([i \in 1..Len(chunks) |-> IF static[i] THEN <<>> ELSE chunks[i]], LAMBDA c : TRUE)
+        names == SetToSeq(AssignedChunks(live, 1))
+        fr == NewFrame(M0(cap, FALSE), names, [i \in 1..Len(names) |-> UnboundV])
+    IN RunChunksS(chunks, static, 1, <<fr.a>>, fr.m, <<>>)
 RunSession(chunks, cap, tr) ==
     LET names == SetToSeq(AssignedChunks(chunks, 1))
         fr == NewFrame(M0(cap, tr), names, [i \in 1..Len(names) |-> UnboundV])
